@@ -88,7 +88,7 @@ def solve(formula, display=True, log=False, params={}):
         y = None
 
     try:
-        if grb.Status not in (gp.GRB.OPTIMAL, gp.GRB.SUBOPTIMAL):
+        if grb.Status != gp.GRB.OPTIMAL:
             raise AttributeError('No optimal solution.')
         solution = Solution('Gurobi', grb.ObjVal, np.array(grb.getAttr('X')),
                             grb.Status, grb.Runtime, y=y)
